@@ -76,6 +76,10 @@ class Ctx(object):
     def violate(self, prop, oracle, detail, sig=None):
         if prop not in self.focus or prop in self.dead:
             return
+        try:
+            detail = json.loads(jdump(detail))      # plain JSON types only: results cross process boundaries
+        except Exception:
+            detail = {"unserialisable_detail": repr(detail)[:500]}
         v = {"property": prop, "oracle": oracle, "step": self.step,
              "detail": detail, "sig": sig if sig is not None else oracle}
         self.violations.append(v)
@@ -270,16 +274,70 @@ def raised_in_repo(exc):
     return False
 
 
+HOST_TZS = [None, None, None, None, "GMT0BST,M3.5.0/1,M10.5.0/2", "EST5EDT,M3.2.0,M11.1.0", "JST-9", "NST3:30NDT,M3.2.0,M11.1.0"]
+
+
 def finish_plan(plan, seed):
     """Host-process state that is part of every plan (drawn from the run seed, not from the world's generator
-    stream): whether the host application has switched standard-library logging off."""
-    plan["host_logging"] = "on" if (int(seed) >> 7) % 3 == 0 else "off"
+    stream): standard-library logging switched off by the host application or not, the local time zone of the
+    process, and - outside REPEAT - an interpreter that strips assert statements (python -O)."""
+    seed = int(seed)
+    plan["host_logging"] = "on" if (seed >> 7) % 3 == 0 else "off"
+    plan["host_tz"] = HOST_TZS[(seed >> 11) % len(HOST_TZS)]
+    plan["host_optimize"] = 1 if ((seed >> 17) % 10 == 0 and plan.get("world") != "repeat") else 0
     if isinstance(plan.get("cfg"), dict):
-        plan["cfg"]["host_logging"] = plan["host_logging"]
+        for k in ("host_logging", "host_tz", "host_optimize"):
+            plan["cfg"][k] = plan[k]
     return plan
+
+
+_OPTIMIZED = [False]
 
 
 def apply_host_state(d):
     """Every run executes in its own child process, so process-global state is set from the plan."""
     import logging
+    import os
+    import time
     logging.disable(logging.NOTSET if d.get("host_logging") == "on" else logging.CRITICAL)
+    tz = d.get("host_tz")
+    if (tz or "UTC") != os.environ.get("TZ", "UTC"):
+        os.environ["TZ"] = tz or "UTC"
+        time.tzset()
+    from .isolate import THROWAWAY
+    if d.get("host_optimize") and THROWAWAY[0] and not _OPTIMIZED[0]:
+        _OPTIMIZED[0] = True
+        reload_repo_without_asserts()
+
+
+def reload_repo_without_asserts():
+    """Re-import every qstrader module compiled as `python -O` would compile it (assert statements and
+    `if __debug__` blocks removed).  Only in a throw-away process."""
+    import importlib
+    import importlib.machinery
+    import sys
+
+    class _OptLoader(importlib.machinery.SourceFileLoader):
+        def get_code(self, fullname):
+            path = self.get_filename(fullname)
+            return compile(self.get_data(path), path, "exec", dont_inherit=True, optimize=1)
+
+    names = sorted(n for n in sys.modules if n == "qstrader" or n.startswith("qstrader."))
+    was_printing = None
+    try:
+        was_printing = sys.modules["qstrader.settings"].PRINT_EVENTS
+    except Exception:
+        pass
+    for n in names:
+        del sys.modules[n]
+    hook = importlib.machinery.FileFinder.path_hook((_OptLoader, [".py"]))
+    sys.path_hooks.insert(0, hook)
+    sys.path_importer_cache.clear()
+    try:
+        for n in names:
+            importlib.import_module(n)
+    finally:
+        sys.path_hooks.remove(hook)
+        sys.path_importer_cache.clear()
+    if was_printing is not None:
+        sys.modules["qstrader.settings"].PRINT_EVENTS = was_printing
